@@ -119,7 +119,9 @@ Proof.
     + apply wf_retain_update; exact Wr.
   - unfold dequeue. destruct (session_of st c) as [[k s]|]; [|exact W].
     destruct t; [destruct (s_tq s)|destruct (s_sq s)]; try exact W; cbn [snd]; apply wf_put; exact W.
-  - unfold terminate. cbn [snd]. destruct W as (Wt & Ws & Wr). unfold wf; cbn [st_temps st_stored st_retained]; repeat split; auto.
+  - unfold terminate. destruct (alookup N.eqb c (st_cid st)) as [id|]; [|exact W].
+    destruct (mem_n c (st_term st) || _); [exact W|].
+    cbn [snd]. destruct W as (Wt & Ws & Wr). unfold wf; cbn [st_temps st_stored st_retained]; repeat split; auto.
     + apply (nodup_aremove N.eqb N.eqb_eq); exact Wt.
     + destruct (alookup N.eqb c (st_sess st)) as [[x|i]|]; try exact Ws.
       destruct (alookup bytes_eqb i (st_stored st)); [apply (nodup_aset bytes_eqb bytes_eqb_eq)|]; exact Ws.
@@ -277,7 +279,8 @@ Proof.
   - unfold unsubscribe. destruct (session_of st c) as [[k s]|]; [|reflexivity]. apply retained_put.
   - unfold dequeue. destruct (session_of st c) as [[k s]|]; [|reflexivity].
     destruct t; [destruct (s_tq s)|destruct (s_sq s)]; try reflexivity; apply retained_put.
-  - reflexivity.
+  - unfold terminate. destruct (alookup N.eqb c (st_cid st)) as [id|]; [|reflexivity].
+    destruct (mem_n c (st_term st) || _); reflexivity.
   - reflexivity.
 Qed.
 
